@@ -221,7 +221,7 @@ theorem parseLinesP_of_ok : ∀ (ls : List Bytes) (k : Option Bytes) (v : Bytes)
           split at h
           · rename_i hs' body hp
             simp only [Except.ok.injEq, Prod.mk.injEq] at h
-            simp only [hsf, ih _ _ _ _ hp, h.1, h.2]
+            simp only [ih _ _ _ _ hp, h.1, h.2]
           · cases h
 
 theorem parseMessageP_format (hs : Headers) (body : Option Bytes) (hwf : WFHeaders hs) :
